@@ -225,6 +225,7 @@ def run(ck, extra_overlay=None):
     ck.cov["close_checks"] = dict(
         total=len(cc), own=sum(1 for r in cc if r["x"] == 0), remote=sum(1 for r in cc if r["x"] == 1),
         pending=sum(1 for r in cc if r["x"] == 2), htlc_resolutions=sum(len(r["res"]) for r in cc),
+        own_on_live_object_mid_dance_or_at_end=sum(1 for r in cc if r.get("live") == 1),
         own_balance_output_trimmed=sum(1 for r in cc if r["self"]["present"] == 0),
         script_executions=sum(sum(1 for k in ("e1", "e1lo", "cltv", "agg", "e2", "e2lo", "e2cl") if x[k] != -1)
                               for r in cc for x in r["res"]) + sum(
